@@ -159,3 +159,48 @@ Proof.
   eexists. split; [vm_compute; reflexivity|]. split; [reflexivity|]. split; [do 2 eexists; reflexivity|].
   split; reflexivity.
 Qed.
+
+(* ---------- what no_wedge_partial leaves open: the step bound ----------
+   The full statement of no_wedge, kept as a Definition (NOT proved).  Two fairness assumptions are needed and
+   both are explicit: (i) the producer's budget B (c_fair: after abortSelf is closed it emits at most B further
+   blocks), as in C10's stop_returns; (ii) the core loop's own select: Go picks at random among the ready cases,
+   so while a request is pending in its send the loop may still take blocks — R bounds how often, over the whole
+   run, it prefers a block to a pending request ("impatient takes").  Counted are all steps except core-loop /
+   producer steps inside the steady data-flow cycle (no stop signalled, producer healthy, loop not on its way
+   out), with the impatient takes counted apart.  The claim is a uniform bound in the number of operations, B and R. *)
+Definition flow_tid (t : tid) : bool := match t with TClient => false | _ => true end.
+
+Definition steadyb (s : state) : bool :=
+  negb (abortc s)
+  && match prod s with PLoop | PSend BNormal => true | _ => false end
+  && match core s with KAtSel | KSel | KProc | KAtBlk => true | _ => false end.
+
+Definition counted (c : cfg) (s : state) (t : tid) : bool :=
+  match step c s t with
+  | Some s' => negb (flow_tid t && steadyb s && steadyb s')
+  | None => false
+  end.
+
+(* the core loop takes a block although the client's request is waiting in its send *)
+Definition impatient (s : state) (t : tid) : bool :=
+  match t, core s, client s with
+  | TCore CTakeBlk, KSel, LSend => true
+  | _, _, _ => false
+  end.
+
+Fixpoint impatient_takes (c : cfg) (s : state) (sched : list tid) : nat :=
+  match sched with
+  | [] => O
+  | t :: rest => match step c s t with
+                 | Some s' => ((if impatient s t then 1 else 0) + impatient_takes c s' rest)%nat
+                 | None => O
+                 end
+  end.
+
+Definition no_wedge_full_statement : Prop :=
+  exists f : nat -> nat -> nat -> nat,
+  forall c ns np B R os sched s,
+    c_fixed c = true -> c_fair c = true ->
+    run (step c) (init_state ns np B os) sched = Some s ->
+    (impatient_takes c (init_state ns np B os) sched <= R)%nat ->
+    (count_steps (step c) (counted c) (init_state ns np B os) sched <= f (length os) B R)%nat.
